@@ -264,8 +264,12 @@ func replayOne(w *conc.World, dir string, ln *Line, bal bool) (step int, f *fail
 }
 
 func main() {
+	if len(os.Args) >= 2 && os.Args[1] == "record" {
+		cmdRecord(os.Args[2:])
+		return
+	}
 	if len(os.Args) < 2 || os.Args[1] != "replay" {
-		fmt.Fprintln(os.Stderr, "usage: ledger replay ...")
+		fmt.Fprintln(os.Stderr, "usage: ledger replay|record ...")
 		os.Exit(2)
 	}
 	fs := flag.NewFlagSet("replay", flag.ExitOnError)
